@@ -661,6 +661,31 @@ def generate_addresses(ctx):
         ctx.run("ada_byron_decode", [a1], "valid-icarus")
         ctx.run("ada_byron_decode", [a2], "valid-legacy")
         ctx.run("ada_byron_decode", [mutate_text(rng, a2, B58)], "mutated")
+    # structurally valid CBOR envelopes around wrong content (built with cbor2 directly)
+    import cbor2
+    import zlib
+    from bip_utils import Base58Encoder
+
+    def env(payload, crc=None, tag=24):
+        c = zlib.crc32(payload) & 0xffffffff if crc is None else crc
+        return Base58Encoder.Encode(cbor2.dumps([cbor2.CBORTag(tag, payload), c]))
+    for _ in range(ctx.n(12, 200)):
+        rh, encp = rb(rng, 28), rb(rng, rng.choice([17, 20, 30]))
+        good = cbor2.dumps([rh, {1: cbor2.dumps(encp)}, 0])
+        cases = [("ok-envelope", env(good)), ("bad-crc", env(good, crc=rng.randrange(2**32))), ("bad-tag", env(good, tag=25)),
+                 ("type-redemption", env(cbor2.dumps([rh, {1: cbor2.dumps(encp)}, 2]))),
+                 ("type-unknown", env(cbor2.dumps([rh, {}, 1]))),
+                 ("short-root", env(cbor2.dumps([rh[:27], {}, 0]))),
+                 ("net-magic", env(cbor2.dumps([rh, {2: cbor2.dumps(1097911063)}, 0]))),
+                 ("both-attrs", env(cbor2.dumps([rh, {1: cbor2.dumps(encp), 2: cbor2.dumps(42)}, 0]))),
+                 ("three-attrs", env(cbor2.dumps([rh, {1: cbor2.dumps(encp), 2: cbor2.dumps(42), 3: b""}, 0]))),
+                 ("foreign-attr", env(cbor2.dumps([rh, {5: b"x"}, 0]))),
+                 ("no-attrs", env(cbor2.dumps([rh, {}, 0]))),
+                 ("two-items", env(cbor2.dumps([rh, {}]))),
+                 ("not-tagged", Base58Encoder.Encode(cbor2.dumps([good, zlib.crc32(good)]))),
+                 ("trailing", Base58Encoder.Encode(cbor2.dumps([cbor2.CBORTag(24, good), zlib.crc32(good)]) + b"\x00"))]
+        for tag, a in cases:
+            ctx.run("ada_byron_decode", [a], tag)
     # --- Byron-legacy wallets: address, path recovery
     for _ in range(ctx.n(10, 250)):
         if not ctx.time_left():
